@@ -135,7 +135,7 @@ func init() {
 	register(&Info{Prop: "C05", Engine: ms, Level: "exploration", QuickS: 45, ThoroughS: 600, RealStub: real,
 		Rule:   "one evaluation = one seeded program biased to cursor call sequences (First/Last/Next/Prev/Seek) issued inside write transactions after same-transaction puts and range deletions, each call compared with the model cursor; every dump also walks Last/Prev. distinct as for C04; non-trivial = at least one committed change",
 		Assume: []string{"cursor semantics as stated in the property (sorted list with a position)", "a cursor call that exceeds the real-time watchdog is reported as a hang"}})
-	register(&Info{Prop: "C07", Engine: altEngine{[]Engine{ms, ms, faultsim{}}}, Level: "exploration", QuickS: 45, ThoroughS: 600, RealStub: real,
+	register(&Info{Prop: "C07", Engine: altEngine{[]Engine{ms, ms, faultsim{}, sizesim{}}}, Level: "exploration", QuickS: 45, ThoroughS: 600, RealStub: real,
 		Rule:   "one evaluation = one seeded program (biased to nested bucket create/delete/move); after every commit and reopen the file is decoded independently and every page below the high-water mark classified; compared with Tx.Check, Stats and Tx.Page. distinct as for C04",
 		Assume: []string{"independent decoder dec/ implements the published v2 layout"}})
 	register(&Info{Prop: "C12", Engine: ms, Level: "exploration", QuickS: 45, ThoroughS: 600, RealStub: real,
